@@ -7,7 +7,7 @@ use serde::{Deserialize, Serialize};
 
 use crate::engine::*;
 use crate::gen::*;
-use crate::tail::Tail;
+use crate::tail::{Tail, UpperTail};
 
 #[derive(Clone, Debug, Serialize, Deserialize)]
 pub enum Query {
@@ -78,7 +78,7 @@ fn strategy(tier: Tier) -> BoxedStrategy<Case> {
             let k = abc.k();
             let lim = exact_limit(abc, tier);
             // widths: mostly enumerable, some larger for the structural parts
-            let width = prop_oneof![8 => 1usize..=lim, 1 => (lim + 1)..=30usize].boxed();
+            let width = prop_oneof![8 => 1usize..=lim, 2 => (lim + 1)..=30usize].boxed();
             let mat = width.prop_flat_map(move |m| {
                 let lib = mat_strategy(abc, Just(m).boxed(), Regimes { library: true, finite: false, neginf: false, small_int: false, near_tie: false });
                 // arbitrary finite cells, any background (zero entries, non-zero wildcard)
@@ -169,6 +169,10 @@ fn run<A: Alphabet>(case: &Case, tier_limit: usize, info: &mut CaseInfo) -> Opti
     let exact = m <= tier_limit;
     info.class_if(!exact, "structural-only(width beyond enumeration)");
     let tail = if exact { Some(Tail::new(&cells, &bg)) } else { None };
+    // beyond enumeration the UPPER tail is still exact: a depth-first walk over the words that can reach a score
+    // near the maximum (capped; a query whose walk exceeds the cap is left to the structural checks)
+    let upper = if exact { None } else { Some(UpperTail::new(&cells, &bg)) };
+    const UPPER_CAP: u64 = 300_000;
     let mass_excess = bg.iter().sum::<f64>().powi(m as i32) - 1.0;
     // --- queries
     let mut scores: Vec<f32> = Vec::new();
@@ -216,6 +220,13 @@ fn run<A: Alphabet>(case: &Case, tier_limit: usize, info: &mut CaseInfo) -> Opti
         scores.push(pssm.min_score() - 1.0);
         scores.push(pssm.max_score() + 1.0);
         scores.push((pssm.min_score() + pssm.max_score()) / 2.0);
+        if let Some(ut) = &upper {
+            if ut.max.is_finite() {
+                for off in [0.0, d, 2.5 * d, 0.75, 2.0, 4.5, 8.0] {
+                    scores.push((ut.max - off) as f32);
+                }
+            }
+        }
     }
     // scores far outside any attainable range, up to the ends of f32 (the score argument has no bound)
     for q in &case.queries {
@@ -264,6 +275,25 @@ fn run<A: Alphabet>(case: &Case, tier_limit: usize, info: &mut CaseInfo) -> Opti
             if (s as f64) > t.min && (s as f64) < t.max {
                 inside += 1;
             }
+        } else if let Some(ut) = &upper {
+            let tau = |v: f64| 1e-9 * v + mass_excess.max(0.0);
+            if let Some(lo) = ut.ge(s as f64 + d + 1e-9, UPPER_CAP) {
+                if p < lo - tau(lo) {
+                    return Some(Failure::new(
+                        "pvalue:below-exact-tail",
+                        format!("pvalue({}) = {:e} < P(S >= s+d) = {:e} (exact upper tail; d = {}, M={})", s, p, lo, d, m),
+                    ));
+                }
+            }
+            if let Some(hi) = ut.ge(s as f64 - d - 1e-9, UPPER_CAP) {
+                info.class("wide-matrix-query-checked-against-the-exact-upper-tail");
+                if p > hi + tau(hi) {
+                    return Some(Failure::new(
+                        "pvalue:above-exact-tail",
+                        format!("pvalue({}) = {:e} > P(S >= s-d) = {:e} (exact upper tail; d = {}, M={})", s, p, hi, d, m),
+                    ));
+                }
+            }
         }
     }
     // --- p-value -> score -> p-value never increases
@@ -308,7 +338,7 @@ impl Sub for Dist {
         "meme-dist"
     }
     fn rule(&self) -> &'static str {
-        "DNA width 1..8 (quick) / ..16 (thorough, meet-in-the-middle), protein 1..3 / ..4, plus wider matrices for the structural parts; library-made and arbitrary finite cells (|cell| <= 32, rows of equal cells, finite or -inf wildcard column; also cells confined to a short interval base + [0, 0.05..2.5) away from zero, so that all cells have one sign and may share one unit interval) x uniform / non-uniform / zero-entry / non-zero-wildcard backgrounds; the matrix object built directly, or (DNA, 3 in 8) obtained as the reverse complement of its mirror image after the mirror image was asked for its own distribution, or cloned from a matrix asked before, the table through to_score_distribution() or ScoreDistribution::from; 8..20 queries per matrix (attainable scores, midpoints, below min, above max, arbitrary, and scores of magnitude 1e7 .. f32::MAX) and up to 12 p-values; oracle: sf in [0,1] non-increasing, P(S>=s+d) <= pvalue(s) <= P(S>=s-d) against the exact enumeration with d=(M/2+1)/scale, pvalue monotone, pvalue(score(p)) <= p; non-trivial = exact oracle available, M >= 2, >= 3 distinct attainable scores and a query strictly inside (min, max)"
+        "DNA width 1..8 (quick) / ..16 (thorough, meet-in-the-middle), protein 1..3 / ..4, plus wider matrices (to 30 columns; two in ten) for the structural parts and for queries within a few units of the maximum, where the exact upper tail is still computable by a pruned depth-first walk; library-made and arbitrary finite cells (|cell| <= 32, rows of equal cells, finite or -inf wildcard column; also cells confined to a short interval base + [0, 0.05..2.5) away from zero, so that all cells have one sign and may share one unit interval) x uniform / non-uniform / zero-entry / non-zero-wildcard backgrounds; the matrix object built directly, or (DNA, 3 in 8) obtained as the reverse complement of its mirror image after the mirror image was asked for its own distribution, or cloned from a matrix asked before, the table through to_score_distribution() or ScoreDistribution::from; 8..20 queries per matrix (attainable scores, midpoints, below min, above max, arbitrary, and scores of magnitude 1e7 .. f32::MAX) and up to 12 p-values; oracle: sf in [0,1] non-increasing, P(S>=s+d) <= pvalue(s) <= P(S>=s-d) against the exact enumeration with d=(M/2+1)/scale, pvalue monotone, pvalue(score(p)) <= p; non-trivial = exact oracle available, M >= 2, >= 3 distinct attainable scores and a query strictly inside (min, max)"
     }
     fn cases(&self, tier: Tier) -> u64 {
         tier.pick(10_000, 300_000)
